@@ -47,6 +47,7 @@ type HConfig struct {
 	ParLife           int64    `json:"par_life_ms"`
 	ParEnforced       bool     `json:"par_enforced"`
 	JWTAccess         bool     `json:"jwt_access,omitempty"` // access tokens are JWTs (compose.NewOAuth2JWTStrategy); monitors only
+	ContractStore     bool     `json:"contract_store,omitempty"` // device codes follow the documented "invalidated => request + ErrInvalidatedDeviceCode" contract; monitors only
 	RawStore          bool     `json:"raw_store,omitempty"` // run on the raw MemoryStore (aliasing included) instead of the by-value adapter
 }
 
@@ -261,6 +262,9 @@ func newWorld(t *testing.T, h *HHistory) *world {
 	var st interface{} = &valueStore{w.store}
 	if h.Cfg.RawStore {
 		st = w.store
+	}
+	if h.Cfg.ContractStore {
+		st = &contractStore{valueStore: &valueStore{w.store}, used: map[string]fosite.DeviceRequester{}}
 	}
 	if h.Cfg.JWTAccess {
 		w.jwt = true
@@ -934,7 +938,9 @@ func coqHistory(h *HHistory, obs []HObs) string {
 		prev = obs[i].Probes
 	}
 	ctor := "HCase"
-	if h.Cfg.JWTAccess {
+	if h.Cfg.ContractStore {
+		ctor = "HCaseContract"
+	} else if h.Cfg.JWTAccess {
 		ctor = "HCaseJwt"
 	} else if h.Cfg.RawStore {
 		ctor = "HCaseRaw"
